@@ -786,7 +786,9 @@ func (g *c18Gen) actorMoveOK(a, mv int) bool {
 	case 1, 2, 3:
 		return has
 	case 4:
-		return has && (g.adv || !g.slotClosed[a])
+		// also through a subscription that was closed before: a repeated Close
+		// must be a no-op (closeOnce)
+		return has
 	case 5:
 		return has && g.slotOwnH[a] >= 0
 	}
@@ -911,8 +913,8 @@ func c18Random(r *vh.Rng, seed uint64, nres, nactors, minLen, maxLen int, adv bo
 		if !own && (mv == 2 || mv == 5) {
 			mv = 1
 		}
-		if adv && g.slotSub[a] >= 0 && g.slotClosed[a] && r.Chance(1, 3) {
-			mv = 4 // adversarial stream: Close through a subscription that was closed before
+		if g.slotSub[a] >= 0 && g.slotClosed[a] && ((adv && r.Chance(1, 3)) || r.Chance(1, 8)) {
+			mv = 4 // Close through a subscription that was closed before (more often in the adversarial stream)
 		}
 		if !g.actorMoveOK(a, mv) {
 			if !g.actorMoveOK(a, 0) {
@@ -1007,16 +1009,17 @@ func c18AdvCorpus() []c18Spec {
 	cl := func(s int) c18Op { return c18Op{Kind: "close", S: s} }
 	ev := func(r int, k string, o int) c18Op { return c18Op{Kind: "ev", R: r, EK: k, O: o} }
 	mk := func(ops ...c18Op) c18Spec {
-		return c18Spec{NRes: 1, Ops: ops, Stream: "adversarial-corpus", Features: []string{"double-close"}}
+		return c18Spec{NRes: 1, Ops: ops, Stream: "corpus", Features: []string{"double-close"}}
 	}
 	return []c18Spec{
-		// A closes twice: the informer stops under B; B's own Close then panics
+		// (before closeOnce: the informer stopped under B and B's own Close panicked)
+		// A closes twice: nothing happens the second time, B keeps receiving
 		mk(sub(0), sub(0), add(1, 0), cl(0), cl(0), ev(0, "ADDED", 0), cl(1)),
-		// single subscriber closing twice: close of a closed channel
+		// single subscriber closing twice (was: close of a closed channel)
 		mk(sub(0), cl(0), cl(0)),
-		// stale double close after a re-subscribe: panics, the new informer survives
+		// stale repeated close after a re-subscribe (was: panic)
 		mk(sub(0), cl(0), sub(0), add(1, 0), cl(0), ev(0, "ADDED", 0), cl(1)),
-		// stale double close with two new subscribers: silently eats one reference
+		// stale repeated close with two new subscribers (was: silently took one of their references)
 		mk(sub(0), cl(0), sub(0), sub(0), add(2, 0), cl(0), cl(1), ev(0, "ADDED", 0), cl(2)),
 	}
 }
@@ -1104,10 +1107,8 @@ func TestVerif_C18(t *testing.T) {
 		for i, s := range c18Corpus() {
 			push(fmt.Sprintf("k%d", i), s)
 		}
-		if adv {
-			for i, s := range c18AdvCorpus() {
-				push(fmt.Sprintf("ka%d", i), s)
-			}
+		for i, s := range c18AdvCorpus() {
+			push(fmt.Sprintf("ka%d", i), s)
 		}
 		// exhaustive part: every sequence over 2 subscribers and 1 resource
 		// (quick: up to length 5, with own-timer moves up to 3; thorough: 6 and 5)
